@@ -175,6 +175,21 @@ def edit_chain(src, exons, kind, shift=(45, 140)):
         else:
             ex[-1][1] += d
         return ex
+    if kind in ("start_in_intron", "end_in_intron"):
+        # alternative start (end) inside an intron: an inner exon extended into the intron before (after) it, the
+        # exons before (after) it dropped; mirror images of each other
+        if n < 3:
+            return None
+        k = src.int(1, n - 2)
+        if kind == "start_in_intron":
+            gap = ex[k][0] - ex[k - 1][1] - 1
+            if gap < 260:
+                return None
+            return [[ex[k][0] - src.int(100, min(gap - 120, 600)), ex[k][1]]] + ex[k + 1:]
+        gap = ex[k + 1][0] - ex[k][1] - 1
+        if gap < 260:
+            return None
+        return ex[:k] + [[ex[k][0], ex[k][1] + src.int(100, min(gap - 120, 600))]]
     if kind == "trunc5":
         if n < 3:
             return None
@@ -438,7 +453,7 @@ DATA_TYPES = ["nanopore", "pacbio_ccs", "assembly"]
 def gen_discovery(src, n_chroms=(1, 3), genes_per_chrom=(1, 3), with_annotation=True, novel_per_gene=(0, 2),
                   reads_known=(0, 6), reads_novel=(3, 10), noise_p=0.0, drop_iso_p=0.0, sep=40, intergenic_p=0.3,
                   exact=True, delta=0, max_exons=6, canon_classes=("canon",), name_prefix="r", overlap_p=0.25,
-                  chrom_names=None):
+                  chrom_names=None, novel_edits=None):
     """Annotation + reads of annotated isoforms + reads of unannotated isoforms (+ optional graph noise).
     Transcripts dropped from the annotation with drop_iso_p become 'hidden' (unannotated) sources as well."""
     sc = gen_annotation(src, n_chroms=n_chroms, genes_per_chrom=genes_per_chrom, sep=sep, max_exons=max_exons,
@@ -448,7 +463,8 @@ def gen_discovery(src, n_chroms=(1, 3), genes_per_chrom=(1, 3), with_annotation=
     sc["novel"] = []
     for g in sc["genes"]:
         code = g["strand"] if g["canon"] == "canon" else None
-        novel = novel_chains(src, sc, g, k=src.int(*novel_per_gene), sep=sep)
+        novel = novel_chains(src, sc, g, k=src.int(*novel_per_gene), sep=sep,
+                             **({"edits": novel_edits} if novel_edits else {}))
         for ex in novel:
             if code:
                 add_canon(sc, g["chr"], ex, code)
@@ -588,6 +604,32 @@ def noisy_read(src, name, chrom, strand, exons, kind, mapq=60):
             gap = src.int(60, 600)
             s = ex[-1][1] + gap + 1
             ex = ex + [[s, s + ln - 1]]
+    elif kind == "termmis":
+        # misplaced terminal exon: the read follows the isoform up to its last (first) intron, whose far end and the
+        # terminal exon after it sit somewhere else; same exon length within a few bases
+        if n < 3:
+            return None
+        right = src.bool(0.5)
+        te = ex[-1] if right else ex[0]
+        ln = te[1] - te[0] + 1 + src.int(-3, 3)
+        if ln < 12:
+            return None
+        if right:
+            gap = ex[-1][0] - ex[-2][1] - 1
+            if src.bool(0.5) and gap > ln + 160:
+                s_ = ex[-2][1] + src.int(60, gap - ln - 60)         # inside the last intron
+            else:
+                s_ = ex[-1][1] + src.int(40, 400)                   # behind the annotated terminal exon
+            ex = ex[:-1] + [[s_, s_ + ln - 1]]
+        else:
+            gap = ex[1][0] - ex[0][1] - 1
+            if src.bool(0.5) and gap > ln + 160:
+                e_ = ex[1][0] - src.int(60, gap - ln - 60)
+            else:
+                e_ = ex[0][0] - src.int(40, 400)
+            if e_ - ln < 10:
+                return None
+            ex = [[e_ - ln + 1, e_]] + ex[1:]
     elif kind == "microir":
         cand = [i for i in range(n - 1) if ex[i + 1][0] - ex[i][1] - 1 <= 50]
         if not cand:
